@@ -154,6 +154,7 @@ def run(ctx, crate):
 
     # ---- R-DRAW-COMMIT-ON-SUCCESS (shared with C01) ----------------------------------------------
     rule_commit_on_success(ctx, crate)
+    rule_io_no_retry(ctx, crate)
 
     # ---- R-IO-REPORTED -----------------------------------------------------------------------
     rule = "R-IO-REPORTED"
@@ -321,6 +322,13 @@ def rule_commit_on_success(ctx, crate, rule="R-DRAW-COMMIT-ON-SUCCESS"):
                     e = K.try_edges(b, tc)
                     if e:
                         cont_edges.append((e[0], e[1]))
+        for f in flushes:
+            if not f.dest["p"]:
+                for sb, t, pl, d in K.discr_switches(b):
+                    if pl["l"] == f.dest["l"] or f.dest["l"] in {tl for tl, tp in b.ref_origins().get(pl["l"], ())}:
+                        for tgt, vs in K.edge_variants(crate, t, "std::result::Result").items():
+                            if vs == {"Ok"}:
+                                cont_edges.append((sb, tgt))
         stores = []
         refs = b.ref_origins()
         for i, j, s in b.assigns():
@@ -345,3 +353,35 @@ def rule_commit_on_success(ctx, crate, rule="R-DRAW-COMMIT-ON-SUCCESS"):
                       "row-count store is dominated by the success edge of flush()? and is the last fallible step",
                       "row count committed %s" % ("on a path that has not passed a successful flush" if not dom else "before a later fallible terminal call"), cfg)
     ctx.floor(rule, n, 1, cfg, "row-count commit stores in the emitter")
+
+
+def rule_io_no_retry(ctx, crate, rule="R-IO-NO-RETRY"):
+    """"later calls on the same and on sibling bars keep working": a failed terminal operation is never re-issued from its
+    own error edge. Draws run under the bar's mutex (and the MultiProgress write lock); a terminal that keeps failing
+    would make such a loop spin forever with those locks held."""
+    cfg = crate.config
+    n = 0
+    for b in K.lib_bodies(crate):
+        for c in b.calls():
+            if c.dest["p"] or not K.is_plain_io_result(b.locals[c.dest["l"]]) or c.matches(r"std::result::Result::<T, E>::.*", K.TRY_BRANCH, K.FROM_RESIDUAL):
+                continue
+            if not b.in_loop(c.bb):
+                continue
+            n += 1
+            err_edges = []
+            for tc in b.calls(K.TRY_BRANCH):
+                if any(x.bb == c.bb for x in b.slice_args(tc, [0], through_calls=False).calls):
+                    e = K.try_edges(b, tc)
+                    if e:
+                        err_edges.append((e[0], e[2]))
+            for sb, t, pl, d in K.discr_switches(b):
+                if pl["l"] == c.dest["l"] or c.dest["l"] in {tl for tl, tp in b.ref_origins().get(pl["l"], ())}:
+                    for tgt, vs in K.edge_variants(crate, t, "std::result::Result").items():
+                        if "Err" in vs:
+                            err_edges.append((sb, tgt))
+            again = [e for e in err_edges if c.bb in b.reach([e[1]])]
+            ctx.check(not again, rule, "retry:%s" % K.meth(c.generic), b.name, c.loc(),
+                      "the error edge of %s leaves the loop" % K.meth(c.generic),
+                      "%s is re-issued from its own error edge: with a persistently failing terminal the call never returns "
+                      "(and holds the bar/multi locks forever)" % c.path, cfg)
+    ctx.floor(rule, n, 3, cfg, "io::Result-valued calls inside loops")
